@@ -167,7 +167,12 @@ class Tokenizer:
     def main_loop(self):
         char: Optional[str] = self.peek(0)
 
-        if char in self._special_characters:
+        if type(self.peek(-1)) is Colon and char in ascii_letters + digits + "_":
+            # A label does not have to start with a letter (Element.set_label
+            # also accepts, e.g., '1a' and '_a').
+            self.label()
+
+        elif char in self._special_characters:
             self.consume(self.pop())
             self.push(self._special_characters[char])
 
@@ -185,27 +190,27 @@ class Tokenizer:
         else:
             raise UnexpectedCharacter(f"Unexpected character: {char}")
 
+    def label(self):
+        # Label for an element
+        char: Optional[str] = self.peek(0)
+        num_curly_scopes: int = 0
+
+        while char is not None:
+            if char == "{":
+                num_curly_scopes += 1
+            elif char == "}":
+                if num_curly_scopes <= 0:
+                    break
+                num_curly_scopes -= 1
+
+            self.consume(self.pop())
+            char = self.peek(0)
+
+        self.push(Label)
+
     def identifier_or_label(self):
         self.consume(self.pop())
         char: Optional[str] = self.peek(0)
-
-        if type(self.peek(-1)) is Colon:
-            # Label for an element
-            num_curly_scopes: int = 0
-
-            while char is not None:
-                if char == "{":
-                    num_curly_scopes += 1
-                elif char == "}":
-                    if num_curly_scopes <= 0:
-                        break
-                    num_curly_scopes -= 1
-
-                self.consume(self.pop())
-                char = self.peek(0)
-
-            self.push(Label)
-            return
 
         prev_token: Optional[Token] = self.peek(-1)
         valid_chars: str
